@@ -774,7 +774,7 @@ instance (recKey : P SearchKey) [Shrinks recKey] : Shrinks (parseSearchKeyList r
 
 theorem sh_parseSearchKey (d fuel : Nat) : Shrinks (parseSearchKey d fuel) := by
   induction d with
-  | zero => exact inferInstanceAs (Shrinks outOfFuel)
+  | zero => unfold parseSearchKey; infer_instance
   | succ d ih => unfold parseSearchKey; infer_instance
 instance : Shrinks (parseSearchKey d fuel) := sh_parseSearchKey d fuel
 
@@ -783,59 +783,24 @@ theorem handleSearchKey_nil (recKey : P SearchKey) (fuel : Nat) :
   unfold handleSearchKey
   rfl
 
-/-- depth_le_input: a recursion budget above the number of bytes left is never exhausted — every level of
-nesting (`(`, `NOT `, `OR `) consumes at least one byte -/
-theorem tot_parseSearchKey (fuel : Nat) : ∀ d, d ≤ fuel → Total d (parseSearchKey d fuel) := by
-  intro d
-  induction d with
-  | zero => intro _; exact ⟨fun s _ hs _ => absurd hs (Nat.not_lt_zero _)⟩
-  | succ d ih =>
-    intro hd
-    haveI ihd : Total d (parseSearchKey d fuel) := ih (by omega)
-    haveI : LEFuel d fuel := ⟨by omega⟩
-    refine ⟨fun s hl hs h => ?_⟩
-    unfold parseSearchKey matchesTy at h
-    obtain ⟨b, s1, hm⟩ := matchesWith_cases (fun t => t == TokTy.lparen) s
-    rw [bind_eq, hm] at h
-    cases b with
-    | true =>
-      -- a parenthesised list: one byte consumed, budget d for what follows
-      have hlt := matchesWith_true_lt _ s s1 hm
-      obtain ⟨hl1, hsuf⟩ := Shrinks.sh (p := matchesWith _) s true s1 hl hm
-      simp only [if_true] at h
-      haveI : Total d (sepLoop .sp (parseSearchKey d fuel) fuel) :=
-        tot_sepLoop .sp (parseSearchKey d fuel) fuel d (by omega) ihd
-      have : Total d (parseSearchKeyList (parseSearchKey d fuel) fuel) := by
-        unfold parseSearchKeyList; infer_instance
-      exact this.tot s1 hl1 (by omega) h
-    | false =>
-      have hs1 := matchesWith_false_eq _ s s1 hm
-      subst hs1
-      simp only [Bool.false_eq_true, if_false] at h
-      rw [bind_check, bind_check] at h
-      split at h
-      · -- a sequence set
-        have : Total fuel (parseSeqSet fuel >>= fun s => pure (SearchKey.seqSet s)) := inferInstance
-        exact this.tot s1 hl (by omega) h
-      · -- a keyword
-        rcases bind_fuel h with h2 | ⟨k, s2, hk, h2⟩
-        · have : Total fuel (readKeyword fuel) := inferInstance
-          exact this.tot s1 hl (by omega) h2
-        · obtain ⟨hlen, hl2⟩ := readKeyword_len fuel s1 k s2 hl hk
-          obtain ⟨_, hsuf⟩ := Shrinks.sh (p := readKeyword fuel) s1 k s2 hl hk
-          cases k with
-          | nil => rw [handleSearchKey_nil] at h2; cases h2
-          | cons k0 ks =>
-            have := tot_handleSearchKey (parseSearchKey d fuel) d fuel (k0 :: ks)
-            simp only [List.length_cons] at hlen
-            exact this.tot s2 hl2 (by omega) h2
-
-instance : Total n (parseSearchKey n n) := tot_parseSearchKey n n (Nat.le_refl _)
-
-
 instance (recKey : P SearchKey) [Shrinks recKey] [Total n recKey] : Total n (handleSearchKey recKey k n) :=
   haveI : LEFuel n n := ⟨Nat.le_refl _⟩
   tot_handleSearchKey recKey n n k
+
+/-- with the nesting cap (/repo c30e930) the recursion of `parseSearchKey` is bounded by its first argument, the
+number of levels still allowed, whatever the input: it cannot run out of fuel by nesting, only its loops
+could — and they do not, with loop fuel above the number of bytes left -/
+theorem tot_parseSearchKey (n : Nat) : ∀ d, Total n (parseSearchKey d n) := by
+  intro d
+  induction d with
+  | zero => unfold parseSearchKey; infer_instance
+  | succ d ih =>
+    haveI := ih
+    haveI : Total n (parseSearchKeyList (parseSearchKey d n) n) := by unfold parseSearchKeyList; infer_instance
+    unfold parseSearchKey
+    infer_instance
+
+instance : Total n (parseSearchKey d n) := tot_parseSearchKey n d
 
 instance : Shrinks (searchFirst n) := by unfold searchFirst; infer_instance
 instance : Total n (searchFirst n) := by unfold searchFirst; infer_instance
@@ -843,7 +808,7 @@ instance : Shrinks (parseSearch n) := by
   unfold parseSearch
   have : ∀ x : BStr × List SearchKey, Shrinks (match x with
       | (charset, first) => do
-        let more ← sepLoop .sp (parseSearchKey n n) n
+        let more ← sepLoop .sp (parseSearchKey searchBudget n) n
         let keys := first ++ more
         if keys.isEmpty then makeError
         else pure (Cmd.search charset keys) : P Cmd) := by
@@ -853,7 +818,7 @@ instance : Total n (parseSearch n) := by
   unfold parseSearch
   have : ∀ x : BStr × List SearchKey, Total n (match x with
       | (charset, first) => do
-        let more ← sepLoop .sp (parseSearchKey n n) n
+        let more ← sepLoop .sp (parseSearchKey searchBudget n) n
         let keys := first ++ more
         if keys.isEmpty then makeError
         else pure (Cmd.search charset keys) : P Cmd) := by
@@ -980,12 +945,13 @@ theorem parse_total (fuel : Nat) (input : Bytes) (hf : input.length < fuel) : pa
   have hinp : s1.input = input := hi
   exact Total.tot (n := fuel) (p := parseLineBody fuel) s1 hl (by rw [hinp]; exact hf) h
 
-/-- depth_unbounded: for every recursion budget `d` there is an input — `d` opening parentheses — on which
-the budget is exhausted; no constant bounds the recursion depth of `parseSearchKey` -/
+/-- depth_capped: `d` opening parentheses exhaust a budget of `d` levels — the result is a parser error (BAD),
+not a loop and not deeper recursion; with `d = searchBudget` that is what `maxSearchKeyDepth + 1` parentheses
+get. (Before /repo c30e930 the same lemma said `.fuel`: no constant bounded the recursion depth.) -/
 theorem parseSearchKey_parens (d fuel : Nat) (c : Ctx) (rest : Bytes) :
-    parseSearchKey d fuel (load c (List.replicate d 40 ++ rest)) = .fuel := by
+    ∃ t s', parseSearchKey d fuel (load c (List.replicate d 40 ++ rest)) = .err (.parse t) s' := by
   induction d generalizing c with
-  | zero => rfl
+  | zero => exact ⟨_, _, rfl⟩
   | succ d ih =>
     unfold parseSearchKey matchesTy
     have h40 : (fun t => t == TokTy.lparen) (tokTy 40) = true := by rfl
@@ -997,7 +963,9 @@ theorem parseSearchKey_parens (d fuel : Nat) (c : Ctx) (rest : Bytes) :
     rw [bind_ok hm]
     simp only [if_true]
     unfold parseSearchKeyList
-    rw [bind_def, ih]
+    obtain ⟨t, s', e⟩ := ih ⟨Tok.ofByte 40, 40, c.n⟩
+    rw [bind_def, e]
+    exact ⟨t, s', rfl⟩
 
 
 end Gluon.Parse
